@@ -1,13 +1,15 @@
 // Recorder for C16: concurrent read-only queries on one object.
-// One object of each class is built (single-threaded), its answers to a probe set are computed sequentially, then
-// 2..16 threads issue seeded query sequences against the SAME object without synchronisation, each logging its own
-// (query, answer) pairs into its own buffer; after the join the sequential answers are computed again.
+// Two identical objects of each class are built (single-threaded): the answers of the first to a probe set are the
+// sequential reference; then 2..16 threads issue boundary and seeded query sequences against the SECOND, so far
+// unqueried, object without synchronisation, each logging its own (query, answer) pairs into its own buffer; after the
+// join the sequential answers of that object are computed again.
 // Built with ThreadSanitizer (no OpenMP): a data race aborts the recording (Crash line, rejected by the trace spec).
 // Validated by spec/ReadersTrace.tla.
 #include "rec_common.hpp"
 #include "access.hpp"
 
 #include <atomic>
+#include <functional>
 #include <memory>
 #include <thread>
 
@@ -18,13 +20,21 @@ static long long g_x = 0, g_only = -1;
 
 static uint32_t mix(uint64_t h, uint64_t v) { h ^= v + 0x9e3779b97f4a7c15ull + (h << 6) + (h >> 2); return (uint32_t) (h % 1000000007ull); }
 
-template<typename Answer>
-void run_readers(const char *cls, size_t nprobes, int nthreads, uint64_t seed, Answer &&answer) {
+// `make` builds a fresh object and returns the function that answers probe q on it.  The reference answers come from a
+// twin built the same way; the threads start on an object that has not answered a single query yet, so that state
+// which a query path fills on first use (a memoised position, a lazily built table) is first touched concurrently.
+template<typename Make>
+void run_readers(const char *cls, size_t nprobes, int nthreads, uint64_t seed, Make &&make) {
     long long x = g_x++;
     if (g_only >= 0 && x != g_only) return;
     g_out->begin("Reset").num("x", x).str("cls", cls).num("threads", nthreads).num("probes", (long long) nprobes).raw("tags", jstrs({cls})).end();
-    auto sequential = [&] { std::vector<long long> r; for (size_t q = 0; q < nprobes; ++q) r.push_back((long long) answer(q)); return r; };
-    g_out->begin("Sequential").str("when", "before").raw("answers", jarr(sequential())).end();
+    {
+        auto twin = make();
+        std::vector<long long> r;
+        for (size_t q = 0; q < nprobes; ++q) r.push_back((long long) twin(q));
+        g_out->begin("Sequential").str("when", "before").raw("answers", jarr(r)).end();
+    }
+    auto answer = make();
     std::vector<std::vector<std::vector<long long>>> logs((size_t) nthreads);
     std::atomic<int> ready{0};
     std::vector<std::thread> th;
@@ -34,13 +44,17 @@ void run_readers(const char *cls, size_t nprobes, int nthreads, uint64_t seed, A
             ready.fetch_add(1);
             while (ready.load() < nthreads) { }           // start together
             for (int i = 0; i < 400; ++i) {
-                size_t q = rng.below(nprobes);
+                // the first queries of every thread are the boundary probes (the first ones of the probe set), in a
+                // thread-specific rotation; then seeded ones
+                size_t q = i < 12 ? (size_t) ((i + t) % 12) % nprobes : rng.below(nprobes);
                 logs[(size_t) t].push_back({(long long) q, (long long) answer(q)});
             }
         });
     for (auto &t : th) t.join();
     for (int t = 0; t < nthreads; ++t) g_out->begin("Thread").num("tid", t).raw("log", jarr2(logs[(size_t) t])).end();
-    g_out->begin("Sequential").str("when", "after").raw("answers", jarr(sequential())).end();
+    std::vector<long long> r;
+    for (size_t q = 0; q < nprobes; ++q) r.push_back((long long) answer(q));
+    g_out->begin("Sequential").str("when", "after").raw("answers", jarr(r)).end();
     g_out->begin("End").end();
 }
 
@@ -59,51 +73,78 @@ int main(int argc, char **argv) {
 
     std::vector<uint32_t> data;
     { uint32_t cur = 100; for (int i = 0; i < 20000; ++i) { data.push_back(cur); cur += (uint32_t) rng.below(5); } }
-    std::vector<uint32_t> probes;
+    std::vector<uint32_t> probes{0u, data.front() - 1, data.front(), data.front() + 1, data.back() - 1, data.back(), data.back() + 1,
+                                 std::numeric_limits<uint32_t>::max() - 1, std::numeric_limits<uint32_t>::max() - 2, data[data.size() / 2], 1u, data.back() + 1000};
     for (int i = 0; i < 600; ++i) probes.push_back(i % 7 == 0 ? (uint32_t) rng.next() : data[rng.below(data.size())] + (uint32_t) rng.below(2));
     std::vector<int> thread_counts = quick ? std::vector<int>{2, 5, 16} : std::vector<int>{2, 3, 4, 7, 8, 12, 16};
     auto pos_hash = [](const pgm::ApproxPos &r) { return mix(mix(mix(7, r.pos), r.lo), r.hi); };
 
+    using Fn = std::function<uint64_t(size_t)>;
+    // Multidim / Dynamic inputs are fixed before the loop so that twins are identical
+    std::vector<std::tuple<uint32_t, uint32_t>> pts;
+    for (int i = 0; i < 3000; ++i) pts.emplace_back((uint32_t) rng.below(64), (uint32_t) rng.below(64));
+    pts.emplace_back(0u, 0u); pts.emplace_back(63u, 63u);
+    struct Upd { uint32_t k; bool erase; uint32_t v; };
+    std::vector<Upd> upds;
+    for (int i = 0; i < 3000; ++i) { uint32_t k = (uint32_t) rng.below(1500); upds.push_back({k, rng.chance(1, 4), (uint32_t) i + 1}); }
+    int file_no = 0;
+
     for (int nt : thread_counts) {
-        { pgm::PGMIndex<uint32_t, 8, 4> idx(data.begin(), data.end());
-          run_readers("PGMIndex", probes.size(), nt, rng.next(), [&](size_t q) { return pos_hash(idx.search(probes[q])); }); }
-        { pgm::PGMIndex<uint32_t, 4, 0> idx(data.begin(), data.end());
-          run_readers("OneLevelPGMIndex", probes.size(), nt, rng.next(), [&](size_t q) { return pos_hash(idx.search(probes[q])); }); }
-        { pgm::CompressedPGMIndex<uint32_t, 8, 4> idx(data.begin(), data.end());
-          run_readers("Compressed", probes.size(), nt, rng.next(), [&](size_t q) { return pos_hash(idx.search(probes[q])); }); }
-        { pgm::BucketingPGMIndex<uint32_t, 8, 64> idx(data.begin(), data.end());
-          run_readers("Bucketing", probes.size(), nt, rng.next(), [&](size_t q) { return pos_hash(idx.search(probes[q])); }); }
-        { pgm::EliasFanoPGMIndex<uint32_t, 8> idx(data.begin(), data.end());
-          run_readers("EliasFano", probes.size(), nt, rng.next(), [&](size_t q) { return pos_hash(idx.search(probes[q])); }); }
-        { std::string f = scratch + "/readers.mapped.pgm";
-          { pgm::MappedPGMIndex<uint32_t, 8> idx(data.begin(), data.end(), f);
-            run_readers("Mapped", probes.size(), nt, rng.next(), [&](size_t q) {
+        run_readers("PGMIndex", probes.size(), nt, rng.next(), [&]() -> Fn {
+            auto idx = std::make_shared<pgm::PGMIndex<uint32_t, 8, 4>>(data.begin(), data.end());
+            return [idx, &probes, pos_hash](size_t q) { return pos_hash(idx->search(probes[q])); }; });
+        run_readers("OneLevelPGMIndex", probes.size(), nt, rng.next(), [&]() -> Fn {
+            auto idx = std::make_shared<pgm::PGMIndex<uint32_t, 4, 0>>(data.begin(), data.end());
+            return [idx, &probes, pos_hash](size_t q) { return pos_hash(idx->search(probes[q])); }; });
+        run_readers("BinaryRoutedPGMIndex", probes.size(), nt, rng.next(), [&]() -> Fn {
+            auto idx = std::make_shared<pgm::PGMIndex<uint32_t, 2, 64>>(data.begin(), data.end());
+            return [idx, &probes, pos_hash](size_t q) { return pos_hash(idx->search(probes[q])); }; });
+        run_readers("Compressed", probes.size(), nt, rng.next(), [&]() -> Fn {
+            auto idx = std::make_shared<pgm::CompressedPGMIndex<uint32_t, 8, 4>>(data.begin(), data.end());
+            return [idx, &probes, pos_hash](size_t q) { return pos_hash(idx->search(probes[q])); }; });
+        run_readers("Bucketing", probes.size(), nt, rng.next(), [&]() -> Fn {
+            auto idx = std::make_shared<pgm::BucketingPGMIndex<uint32_t, 8, 64>>(data.begin(), data.end());
+            return [idx, &probes, pos_hash](size_t q) { return pos_hash(idx->search(probes[q])); }; });
+        run_readers("Bucketing100", probes.size(), nt, rng.next(), [&]() -> Fn {
+            auto idx = std::make_shared<pgm::BucketingPGMIndex<uint32_t, 8, 100>>(data.begin(), data.end());
+            return [idx, &probes, pos_hash](size_t q) { return pos_hash(idx->search(probes[q])); }; });
+        run_readers("EliasFano", probes.size(), nt, rng.next(), [&]() -> Fn {
+            auto idx = std::make_shared<pgm::EliasFanoPGMIndex<uint32_t, 8>>(data.begin(), data.end());
+            return [idx, &probes, pos_hash](size_t q) { return pos_hash(idx->search(probes[q])); }; });
+        run_readers("Mapped", probes.size(), nt, rng.next(), [&]() -> Fn {
+            std::string f = scratch + "/readers.mapped." + std::to_string(file_no++) + ".pgm";
+            auto idx = std::make_shared<pgm::MappedPGMIndex<uint32_t, 8>>(data.begin(), data.end(), f);
+            remove(f.c_str());          // the mapping stays valid; nothing is left behind
+            return [idx, &probes](size_t q) {
                 uint32_t k = probes[q];
-                return mix(mix(mix(3, (uint64_t) (idx.lower_bound(k) - idx.begin())), (uint64_t) (idx.upper_bound(k) - idx.begin())), idx.count(k) * 2 + idx.contains(k)); }); }
-          remove(f.c_str()); }
+                return (uint64_t) mix(mix(mix(3, (uint64_t) (idx->lower_bound(k) - idx->begin())), (uint64_t) (idx->upper_bound(k) - idx->begin())), idx->count(k) * 2 + idx->contains(k)); }; });
 #ifdef MORTON_ND_BMI2_ENABLED
-        { std::vector<std::tuple<uint32_t, uint32_t>> pts;
-          for (int i = 0; i < 3000; ++i) pts.emplace_back((uint32_t) rng.below(64), (uint32_t) rng.below(64));
-          pgm::MultidimensionalPGMIndex<2, uint32_t, 8> idx(pts.begin(), pts.end());
-          run_readers("Multidim", 400, nt, rng.next(), [&](size_t q) {
-              uint32_t ax = (uint32_t) (q * 7 % 64), ay = (uint32_t) (q * 13 % 64);
-              uint64_t h = idx.contains({ax, ay}) ? 1 : 0;
-              size_t c = 0;
-              for (auto it = idx.range({ax, ay}, {std::min(63u, ax + 9), std::min(63u, ay + 5)}); it != idx.end() && c < 5000; ++it, ++c) h = mix(h, std::get<0>(*it) * 64 + std::get<1>(*it));
-              return mix(h, c); }); }
+        run_readers("Multidim", 400, nt, rng.next(), [&]() -> Fn {
+            auto idx = std::make_shared<pgm::MultidimensionalPGMIndex<2, uint32_t, 8>>(pts.begin(), pts.end());
+            return [idx](size_t q) {
+                // probe 0 is the origin, probe 1 the far corner
+                uint32_t ax = q == 1 ? 63u : (uint32_t) (q * 7 % 64), ay = q == 1 ? 63u : (uint32_t) (q * 13 % 64);
+                uint64_t h = idx->contains({ax, ay}) ? 1 : 0;
+                size_t c = 0;
+                for (auto it = idx->range({ax, ay}, {std::min(63u, ax + 9), std::min(63u, ay + 5)}); it != idx->end() && c < 5000; ++it, ++c) h = mix(h, std::get<0>(*it) * 64 + std::get<1>(*it));
+                return (uint64_t) mix(h, c); }; });
 #endif
-        { pgm::DynamicPGMIndex<uint32_t, uint32_t, pgm::PGMIndex<uint32_t, 4, 2>> d(uint8_t(4), uint8_t(1), uint8_t(2));
-          for (int i = 0; i < 3000; ++i) { uint32_t k = (uint32_t) rng.below(1500); if (rng.chance(1, 4)) d.erase(k); else d.insert_or_assign(k, (uint32_t) i + 1); }
-          run_readers("Dynamic", 500, nt, rng.next(), [&](size_t q) {
-              uint32_t k = (uint32_t) (q * 3);
-              auto it = d.find(k);
-              uint64_t h = it == d.end() ? 0 : it->second;
-              h = mix(h, d.count(k));
-              auto lb = d.lower_bound(k);
-              int c = 0;
-              for (; lb != d.end() && c < 12; ++lb, ++c) h = mix(h, (uint64_t) lb->first * 100003 + lb->second);
-              for (auto &kv : d.range(k, k + 20)) h = mix(h, (uint64_t) kv.first * 31 + kv.second);
-              return mix(h, 1); }); }
+        run_readers("Dynamic", 500, nt, rng.next(), [&]() -> Fn {
+            auto d = std::make_shared<pgm::DynamicPGMIndex<uint32_t, uint32_t, pgm::PGMIndex<uint32_t, 4, 2>>>(uint8_t(4), uint8_t(1), uint8_t(2));
+            for (auto &u : upds) { if (u.erase) d->erase(u.k); else d->insert_or_assign(u.k, u.v); }
+            return [d](size_t q) {
+                uint32_t k = (uint32_t) (q * 3);
+                auto it = d->find(k);
+                uint64_t h = it == d->end() ? 0 : it->second;
+                h = mix(h, d->count(k));
+                auto lb = d->lower_bound(k);
+                int c = 0;
+                for (; lb != d->end() && c < 12; ++lb, ++c) h = mix(h, (uint64_t) lb->first * 100003 + lb->second);
+                for (auto &kv : d->range(k, k + 20)) h = mix(h, (uint64_t) kv.first * 31 + kv.second);
+                h = mix(h, d->size() * 2 + (d->empty() ? 1 : 0));
+                int c2 = 0;
+                for (auto b = d->begin(); b != d->end() && c2 < 5; ++b, ++c2) h = mix(h, b->first);
+                return (uint64_t) mix(h, 1); }; });
     }
     out.flush();
     return 0;
